@@ -334,6 +334,22 @@ func corpus6(rng *rand.Rand, n int) [][]byte {
 			out = append(out, r2.ToBytes())
 		}
 	}
+	// relay chains of depth 1..4 in which one level (any of them) carries no relay message option: decodable, and
+	// every operation that walks the chain meets the hole
+	for depth := 1; depth <= 4; depth++ {
+		for hole := 1; hole <= depth; hole++ { // 1 = the innermost relay
+			var d dhcpv6.DHCPv6 = &dhcpv6.Message{MessageType: dhcpv6.MessageTypeSolicit}
+			for k := 1; k <= depth; k++ {
+				r, _ := dhcpv6.EncapsulateRelay(d, dhcpv6.MessageTypeRelayForward, net.ParseIP("2001:db8::1"), net.ParseIP("fe80::1"))
+				r.AddOption(dhcpv6.OptInterfaceID([]byte{byte(k)}))
+				if k == hole {
+					r.Options.Del(dhcpv6.OptionRelayMsg)
+				}
+				d = r
+			}
+			out = append(out, d.ToBytes())
+		}
+	}
 	// compressed names (the label set keeps its original bytes)
 	names := []byte{3, 'f', 'o', 'o', 3, 'c', 'o', 'm', 0, 3, 'b', 'a', 'r', 0xc0, 4}
 	for _, code := range []int{24, 39} {
